@@ -118,13 +118,23 @@ type corpusItem struct {
 	Schema []byte
 	Input  []byte
 	Ext    map[string]string // external properties of the run (part of what the result is a function of)
-	sch    omniparser.Schema
+	// mk, if set, builds the Schema (with the item's own Extension) when the item first runs: what building an
+	// Extension does to the process is part of the history of whatever runs afterwards, not of what ran before
+	mk  func() (omniparser.Schema, error)
+	sch omniparser.Schema
 }
 
 // runItem transforms an item's input (or the same bytes through another reader) with the item's external properties
 func runItem(it *corpusItem, r io.Reader) RunOutcome {
 	if r == nil {
 		r = bytes.NewReader(it.Input)
+	}
+	if it.sch == nil && it.mk != nil {
+		sch, err := it.mk()
+		if err != nil {
+			return RunOutcome{NewTrErr: "schema: " + err.Error()}
+		}
+		it.sch = sch
 	}
 	return runTranscript(it.sch, r, RunOpts{MaxReads: 100000, Ext: it.Ext})
 }
